@@ -23,7 +23,15 @@ fn fabs<F: Scalar>(x: F) -> F {
 }
 /// |a - b| <= t
 fn close<F: Scalar>(a: F, b: F, t: F) -> SymB {
-    fabs(a - b).s_le(t)
+    // two one-sided comparisons: the solver handles them far better than an `ite`-encoded absolute value
+    (a - b).s_le(t).and((b - a).s_le(t))
+}
+/// `ob=<g>` keeps only obligation group g: the engine discharges all obligations of a path in one query, and a
+/// conjunction of non-linear obligations is often undecided where each of them alone is proved at once
+fn check_g(only: i64, g: i64, name: &str, c: SymB) {
+    if only < 0 || only == g {
+        check(name, c);
+    }
 }
 fn sum<F: Scalar>(xs: impl Iterator<Item = F>) -> F {
     let mut s = F::lit(0.0);
@@ -138,7 +146,7 @@ fn order_stat<F: Scalar>(v: &[F], k: usize) -> F {
 
 /// the obligation "score == textbook formula" for one target column; `a` = receiver (prediction),
 /// `b` = argument (ground truth); `mu` perturbs the oracle (self-test of the harness only)
-fn oblige<F: Scalar>(m: usize, res: F, a: &[F], b: &[F], mu: F, bound: i64, region: usize) {
+fn oblige<F: Scalar>(m: usize, res: F, a: &[F], b: &[F], mu: F, bound: i64, region: usize, form: usize, only: i64) {
     let n = a.len();
     let smax = n as f64 * (2.0 * bound as f64) * (2.0 * bound as f64);
     let nf = F::lit(n as f64);
@@ -150,22 +158,22 @@ fn oblige<F: Scalar>(m: usize, res: F, a: &[F], b: &[F], mu: F, bound: i64, regi
             for i in 1..n {
                 o = NF::max(o, fabs(d[i]));
             }
-            check("max_error == max_i |pred_i - truth_i|", res.s_eq(o + mu));
+            check_g(only, 1, "max_error == max_i |pred_i - truth_i|", res.s_eq(o + mu));
         }
         M_MAE => {
             let s = sum(d.iter().map(|&x| fabs(x))) + mu;
-            check("mean_absolute_error * n == sum_i |pred_i - truth_i|", close(res * nf, s, tol::<F>(30) * (one + s)));
+            check_g(only, 1, "mean_absolute_error * n == sum_i |pred_i - truth_i|", close(res * nf, s, tol::<F>(30) * (one + s)));
         }
         M_MSE => {
             let s = sum(d.iter().map(|&x| x * x)) + mu;
-            check("mean_squared_error * n == sum_i (pred_i - truth_i)^2", close(res * nf, s, tol::<F>(30) * (one + s)));
+            check_g(only, 1, "mean_squared_error * n == sum_i (pred_i - truth_i)^2", close(res * nf, s, tol::<F>(30) * (one + s)));
         }
         M_MSLE => {
             let s = sum((0..n).map(|i| {
                 let l = NF::ln(one + a[i]) - NF::ln(one + b[i]);
                 l * l
             })) + mu;
-            check("mean_squared_log_error * n == sum_i (ln(1+pred_i) - ln(1+truth_i))^2", close(res * nf, s, tol::<F>(30) * (one + s)));
+            check_g(only, 1, "mean_squared_log_error * n == sum_i (ln(1+pred_i) - ln(1+truth_i))^2", close(res * nf, s, tol::<F>(30) * (one + s)));
         }
         M_MEDIAN => {
             // order statistics by rank counting (the harness' own comparisons are branches of the same path)
@@ -177,36 +185,44 @@ fn oblige<F: Scalar>(m: usize, res: F, a: &[F], b: &[F], mu: F, bound: i64, regi
             }
             let mid = n / 2;
             let o = if n % 2 == 1 { by_rank[mid] } else { (by_rank[mid - 1] + by_rank[mid]) * F::lit(0.5) };
-            check("median_absolute_error == median of |pred_i - truth_i|", res.s_eq(o + mu));
+            check_g(only, 1, "median_absolute_error == median of |pred_i - truth_i|", res.s_eq(o + mu));
         }
         M_MAPE => {
             // relative to the receiver: |(recv_i - other_i) / recv_i|
             let s = sum((0..n).map(|i| fabs(d[i] / a[i]))) + mu;
-            check("mean_absolute_percentage_error * n == sum_i |(recv_i - other_i) / recv_i|", close(res * nf, s, tol::<F>(30) * (one + s)));
+            check_g(only, 1, "mean_absolute_percentage_error * n == sum_i |(recv_i - other_i) / recv_i|", close(res * nf, s, tol::<F>(30) * (one + s)));
         }
-        M_R2 => {
-            // W = n^2 Var(truth) = n * SStot,  S = SSres:   (1 - r2) * W == n * S
-            let sb = sum(b.iter().copied());
-            let w = nf * sum(b.iter().map(|&x| x * x)) - sb * sb;
-            let s = sum(d.iter().map(|&x| x * x));
-            // interval facts of the domain (|pred - truth| <= 2B), stated because the solver does not derive
-            // bounds of products of integer variables by itself; they exclude no input
-            assume(F::lit(0.0).s_le(s).and(s.s_le(F::lit(smax))));
-            let c = F::lit(pow2ceil(n as f64 * smax) * (2.0f64).powi(-24));
-            check("(1 - r2) * n^2 Var(truth) == n * sum_i (pred_i - truth_i)^2", close((one - res) * w, nf * (s + mu), c));
-        }
-        _ => {
-            // explained variance = 1 - Var(pred - truth) / Var(truth)
+        M_R2 | M_EV => {
+            // W = n^2 Var(truth) = n * SStot (exact moment form);  S = SSres;  Vd = n^2 Var(pred - truth)
             let sb = sum(b.iter().copied());
             let w = nf * sum(b.iter().map(|&x| x * x)) - sb * sb;
             let sd = sum(d.iter().copied());
             let s = sum(d.iter().map(|&x| x * x));
-            assume(F::lit(0.0).s_le(s).and(s.s_le(F::lit(smax))));
-            // n^2 Var(d) = n sum d^2 - (sum d)^2; in region 0 the errors are assumed to sum to zero
-            let vd = if region == 0 { nf * s + mu } else { nf * s - sd * sd + mu };
-            let c = F::lit(pow2ceil(n as f64 * smax) * (2.0f64).powi(-24));
-            check("(1 - explained_variance) * n^2 Var(truth) == n^2 Var(pred - truth)", close((one - res) * w, vd, c));
+            // numerator of the textbook ratio times n: n * SSres (r2) / n^2 Var(err) (explained variance; in
+            // region 0 the errors are assumed to sum to zero, so n^2 Var(err) = n * sum err^2)
+            let num = if m == M_R2 || region == 0 { nf * s } else { nf * s - sd * sd };
+            let what = if m == M_R2 { "r2" } else { "explained_variance" };
+            if form == 0 {
+                // SStot the textbook way (two passes, by ndarray) -- an auxiliary value whose relation to the
+                // moment form is the second obligation.  The first one multiplies by SStot + 1e-10: linfa adds
+                // 1e-10 to the denominator; for non-constant integer truth (n * SStot >= 1) this changes the score
+                // by at most |1 - score| * n * 1e-10, and the tolerance below (2^-30 of the largest possible
+                // n * SSres) is wide enough that a different small regulariser would not be reported.
+                let tb = Array1::from(b.to_vec());
+                let mean = tb.mean().unwrap();
+                let sstot = tb.mapv(|x| (x - mean) * (x - mean)).sum();
+                let c = F::lit(pow2ceil(n as f64 * smax) * (2.0f64).powi(-30));
+                check_g(only, 1, &format!("(1 - {}) * (SStot + 1e-10) * n == textbook numerator * n", what), close(nf * ((one - res) * (sstot + F::lit(1e-10))), num + mu, c));
+                check_g(only, 2, "SStot * n == n sum t^2 - (sum t)^2", close(nf * sstot, w, c));
+            } else {
+                // directly against the moment form, without the regulariser: the solver needs interval facts of
+                // the domain (|pred - truth| <= 2B) as hints; they exclude no input
+                assume(F::lit(0.0).s_le(s).and(s.s_le(F::lit(smax))));
+                let c = F::lit(pow2ceil(n as f64 * smax) * (2.0f64).powi(-24));
+                check_g(only, 1, &format!("(1 - {}) * n^2 Var(truth) == textbook numerator * n", what), close((one - res) * w, num + mu, c));
+            }
         }
+        _ => unreachable!(),
     }
 }
 
@@ -221,6 +237,7 @@ fn pow2ceil(x: f64) -> f64 {
 fn regression<F: Scalar>(p: &Params) {
     let (n, m, cols, recv) = (p.u("n", 3), p.u("m", 0), p.u("cols", 0), p.u("recv", 0));
     let (b, region, mutk) = (p.get("B", 64), p.u("region", 0), p.get("mut", 0));
+    let only = p.get("ob", -1);
     let c = cols.max(1);
     let lo = if m == M_MSLE { 0 } else { -b };
     let mut a = Array2::from_elem((n, c), F::lit(0.0));
@@ -242,12 +259,14 @@ fn regression<F: Scalar>(p: &Params) {
             }
         }
         if m == M_R2 || m == M_EV {
-            // non-constant truth
-            let sb = sum(tj.iter().copied());
-            let w = nf * sum(tj.iter().map(|&x| x * x)) - sb * sb;
-            // (w = n^2 Var(truth) is an integer on the grid, so w > 0 and w >= 1 are the same set of inputs;
-            // stated as w >= 1 because the solver reasons about the real relaxation)
-            assume(F::lit(1.0).s_le(w));
+            // non-constant truth (as a linear fact: the solver is much more reliable without non-linear context)
+            assume(SymB::any(&(1..n).map(|i| tj[i].s_eq(tj[0]).not()).collect::<Vec<_>>()));
+            if p.u("form", 0) == 1 {
+                // n^2 Var(truth) is a positive integer then; the direct form needs it as a hint
+                let sb = sum(tj.iter().copied());
+                let w = nf * sum(tj.iter().map(|&x| x * x)) - sb * sb;
+                assume(F::lit(1.0).s_le(w));
+            }
         }
         if m == M_EV {
             let sd = sum((0..n).map(|i| aj[i] - tj[i]));
@@ -262,6 +281,16 @@ fn regression<F: Scalar>(p: &Params) {
     }
     let mu = |k: i64| if mutk == k { F::lit(1.0) } else { F::lit(0.0) };
     let run = |a: &Array2<F>, t: &Array2<F>| -> Vec<F> {
+        if m == M_R2 || m == M_EV {
+            // linfa divides by SStot + 1e-10, which is positive; saying so up front keeps the engine from forking on
+            // "divisor == 0" (the refuted fork query leaves z3's incremental state unable to prove the obligations)
+            for j in 0..c {
+                let tb = t.column(j).to_owned();
+                let mean = tb.mean().unwrap();
+                let dd = tb.mapv(|x| (x - mean) * (x - mean)).sum() + F::lit(1e-10);
+                assume(dd.s_eq(F::lit(0.0)).not());
+            }
+        }
         if cols == 0 {
             vec![call_single(m, recv, &a.column(0).to_owned(), &t.column(0).to_owned())]
         } else {
@@ -271,7 +300,9 @@ fn regression<F: Scalar>(p: &Params) {
     let res = run(&a, &t);
     check_bool("one score per target column", res.len() == c);
     for j in 0..c.min(res.len()) {
-        oblige(m, res[j], &a.column(j).to_vec(), &t.column(j).to_vec(), mu(1), b, region);
+        // mut=3: an oracle that is wrong only for pred_0 > B - 4 (self-test: the solver has to find the input)
+        let muv = if mutk == 3 { NF::max(F::lit(0.0), a[(0, j)] - F::lit((b - 4) as f64)) } else { mu(1) };
+        oblige(m, res[j], &a.column(j).to_vec(), &t.column(j).to_vec(), muv, b, region, p.u("form", 0), only);
         observe(res[j]);
     }
     // one permutation applied to predictions and truths together: a transposition and a rotation
@@ -280,18 +311,23 @@ fn regression<F: Scalar>(p: &Params) {
             (0..n).map(|i| if i == 0 { n - 1 } else if i == n - 1 { 0 } else { i }).collect(),
             (0..n).map(|i| (i + 1) % n).collect(),
         ];
-        for pi in perms.iter().take(if n == 2 { 1 } else { 2 }) {
+        for (pk, pi) in perms.iter().enumerate().take(if n == 2 { 1 } else { 2 }) {
+            let g = 3 + pk as i64;
+            if only >= 0 && only != g {
+                continue;
+            }
             let ap = Array2::from_shape_fn((n, c), |(i, j)| a[(pi[i], j)]);
             let tp = Array2::from_shape_fn((n, c), |(i, j)| t[(pi[i], j)]);
             let rp = run(&ap, &tp);
             for j in 0..c.min(rp.len()) {
                 let r2 = rp[j] + mu(2);
+                let name = "score unchanged by permuting predictions and truths together";
                 if m == M_MAX || m == M_MEDIAN {
-                    check("score unchanged by permuting predictions and truths together", res[j].s_eq(r2));
+                    check(name, res[j].s_eq(r2));
                 } else if m == M_R2 || m == M_EV {
-                    check("score unchanged by permuting predictions and truths together", close(res[j], r2, tol::<F>(24)));
+                    check(name, close(res[j], r2, tol::<F>(24)));
                 } else {
-                    check("score unchanged by permuting predictions and truths together", close(res[j], r2, tol::<F>(30) * (F::lit(1.0) + fabs(res[j]))));
+                    check(name, close(res[j], r2, tol::<F>(30) * (F::lit(1.0) + fabs(res[j]))));
                 }
             }
         }
@@ -528,6 +564,14 @@ fn cm_errors(_p: &Params) {
 // ------------------------------------------------------------------------------------------------
 // silhouette
 // ------------------------------------------------------------------------------------------------
+fn mu2<F: Scalar>(mutk: i64, k: i64) -> F {
+    if mutk == k {
+        F::lit(1.0)
+    } else {
+        F::lit(0.0)
+    }
+}
+
 fn silhouette<F: Scalar>(p: &Params) {
     let (n, d, pat, b) = (p.u("n", 4), p.u("d", 1), p.u("pat", 0b0011), p.get("B", 64));
     let mutk = p.get("mut", 0);
@@ -558,28 +602,55 @@ fn silhouette<F: Scalar>(p: &Params) {
         let ds = DatasetBase::new(x.clone(), Array1::from(lab.to_vec()));
         ds.silhouette_score().expect("silhouette_score")
     };
+    let dist = |i: usize, j: usize| -> F { (&x.row(i) - &x.row(j)).mapv(|v| v * v).sum().sqrt() };
+    if d == 1 && p.u("hint", 1) == 1 {
+        // in one dimension sqrt((x_i - x_j)^2) = |x_i - x_j| (exactly, also in IEEE on the integer grid): stated so
+        // that the path conditions become linear for the solver; excludes no input
+        for i in 0..n {
+            for j in 0..n {
+                assume(dist(i, j).s_eq(fabs(x[(i, 0)] - x[(j, 0)])));
+            }
+        }
+    }
     let score = score_of(&x, &lab);
     observe(score);
-    // textbook: a_i = mean distance to the other members of the own cluster, b_i = smallest mean distance
-    // to another cluster, s_i = (b_i - a_i) / max(a_i, b_i), score = mean s_i; Euclidean distance
-    let dist = |i: usize, j: usize| -> F { (&x.row(i) - &x.row(j)).mapv(|v| v * v).sum().sqrt() };
-    let mut total = F::lit(0.0);
+    let only = p.get("ob", -1);
+    // Textbook: a_i = mean distance to the other members of the own cluster, b_i = mean distance to the other
+    // cluster (smallest over the other clusters), s_i = (b_i - a_i) / max(a_i, b_i), score = mean s_i, Euclidean
+    // distance.  The harness computes these as auxiliary values (distances accumulated per cluster in sample
+    // order, the maximum chosen by comparison) and states (1) score == their mean, (2),(3) the accumulated means
+    // are the textbook means (own sample excluded), (4) s_i * max(a_i, b_i) == b_i - a_i, (5) range.
+    let mut s_aux: Vec<F> = vec![];
+    let one = F::lit(1.0);
+    let dmax = 2.0 * b as f64 * (d as f64).sqrt() * n as f64;
+    let t_d = F::lit(pow2ceil(dmax) * (2.0f64).powi(-30));
     for i in 0..n {
         let own = lab[i];
-        let a = sum((0..n).filter(|&j| j != i && lab[j] == own).map(|j| dist(i, j))) / F::lit((size[own] - 1) as f64);
-        let bb = sum((0..n).filter(|&j| lab[j] != own).map(|j| dist(i, j))) / F::lit(size[1 - own] as f64);
-        total = total + (bb - a) / NF::max(a, bb);
+        let mut tot = [F::lit(0.0), F::lit(0.0)];
+        for j in 0..n {
+            tot[lab[j]] = tot[lab[j]] + dist(i, j);
+        }
+        let a = tot[own] / F::lit((size[own] - 1) as f64);
+        let bb = tot[1 - own] / F::lit(size[1 - own] as f64);
+        let others_own = sum((0..n).filter(|&j| j != i && lab[j] == own).map(|j| dist(i, j)));
+        let others_far = sum((0..n).filter(|&j| lab[j] != own).map(|j| dist(i, j)));
+        check_g(only, 2, "silhouette.a_i * (|own cluster| - 1) == sum of distances to the other members of the own cluster", close(a * F::lit((size[own] - 1) as f64), others_own + mu2(mutk, 2), t_d));
+        check_g(only, 3, "silhouette.b_i * |other cluster| == sum of distances to the members of the other cluster", close(bb * F::lit(size[1 - own] as f64), others_far + mu2(mutk, 3), t_d));
+        let mx = if a >= bb { a } else { bb };
+        let si = (bb - a) / mx;
+        check_g(only, 4, "silhouette.s_i * m_i == b_i - a_i with m_i >= a_i, m_i >= b_i, m_i one of them", SymB::all(&[close(si * mx, bb - a + mu2(mutk, 4), t_d), a.s_le(mx), bb.s_le(mx + mu2(mutk, 4)), mx.s_eq(a).or(mx.s_eq(bb))]));
+        s_aux.push(si);
     }
-    let mu = if mutk == 1 { F::lit(1.0) } else { F::lit(0.0) };
+    let total = sum(s_aux.iter().copied());
     let nf = F::lit(n as f64);
-    check("silhouette_score * n == sum_i (b_i - a_i) / max(a_i, b_i)", close(score * nf, total + mu, tol::<F>(30) * nf));
-    check("silhouette_score in [-1, 1]", fabs(score).s_le(F::lit(1.0) + tol::<F>(30)));
+    check_g(only, 1, "silhouette_score * n == sum_i s_i", close(score * nf, total + mu2(mutk, 1), tol::<F>(30) * nf));
+    check_g(if only < 0 { 99 } else { only }, 9, "silhouette_score in [-1, 1]", fabs(score).s_le(one + tol::<F>(30) - mu2(mutk, 9) - mu2(mutk, 9)));
     if p.u("perm", 0) == 1 {
         let pi: Vec<usize> = (0..n).map(|i| (i + 1) % n).collect();
         let xp = Array2::from_shape_fn((n, d), |(i, j)| x[(pi[i], j)]);
         let lp: Vec<usize> = (0..n).map(|i| lab[pi[i]]).collect();
-        let sp = score_of(&xp, &lp) + if mutk == 2 { F::lit(1.0) } else { F::lit(0.0) };
-        check("silhouette_score unchanged by permuting samples and labels together", close(score, sp, tol::<F>(30)));
+        let sp = score_of(&xp, &lp) + mu2(mutk, 6);
+        check_g(only, 6, "silhouette_score unchanged by permuting samples and labels together", close(score, sp, tol::<F>(30)));
     }
 }
 
@@ -606,21 +677,46 @@ fn pearson<F: Scalar>(p: &Params) {
     for j in 0..pc {
         assume(F::lit(0.0).s_lt(cmom(&x, j, j)));
     }
+    let only = p.get("ob", -1);
+    // Textbook: r_ij = Cov_ij / (std_i std_j) with the sample (n-1) covariance and standard deviations.  The
+    // harness computes Cov and std by ndarray (auxiliary values) and states (1) r_ij * std_i * std_j == Cov_ij,
+    // (2) std_i >= 0 and n (n-1) std_i^2 == n sum x_i^2 - (sum x_i)^2, (3) n (n-1) Cov_ij == n sum x_i x_j - sum x_i sum x_j,
+    // which together give r_ij = C_ij / sqrt(C_ii C_jj) in the row-major upper-triangle order.
+    let mean = x.mean_axis(ndarray::Axis(0)).unwrap();
+    let den = &x - &mean;
+    let cov = den.t().dot(&den) / F::lit((n - 1) as f64);
+    let sd = den.var_axis(ndarray::Axis(0), F::lit(1.0)).mapv(|v| v.sqrt());
+    // non-constant features have a positive standard deviation (follows from the assumption above; stated so that
+    // the engine does not fork on "divisor == 0")
+    for j in 0..pc {
+        assume(sd[j].s_eq(F::lit(0.0)).not());
+    }
     let coeffs = DatasetBase::from(x.clone()).pearson_correlation().get_coeffs().clone();
     check_bool("pearson.one coefficient per unordered feature pair", coeffs.len() == pc * (pc - 1) / 2);
     if coeffs.len() != pc * (pc - 1) / 2 {
         return;
     }
-    let mu = if mutk == 1 { F::lit(1.0) } else { F::lit(0.0) };
+    let bf = b as f64;
+    let nn1 = F::lit((n * (n - 1)) as f64);
+    let t_cov = F::lit(pow2ceil(4.0 * bf * bf * n as f64) * (2.0f64).powi(-30));
+    let t_mom = F::lit(pow2ceil(4.0 * bf * bf * (n * n) as f64) * (2.0f64).powi(-30));
+    for j in 0..pc {
+        check_g(only, 2, "pearson.std_i >= 0 and n (n-1) std_i^2 == n sum x_i^2 - (sum x_i)^2", F::lit(0.0).s_le(sd[j]).and(close(nn1 * (sd[j] * sd[j]), cmom(&x, j, j) + mu2(mutk, 2), t_mom)));
+    }
     let mut k = 0;
     for i in 0..pc {
         for j in (i + 1)..pc {
             let r = coeffs[k];
-            observe(r);
-            let (cii, cjj, cij0) = (cmom(&x, i, i), cmom(&x, j, j), cmom(&x, i, j));
-            let cij = cij0 + mu;
-            check("pearson.r_ij^2 * Var_i * Var_j == Cov_ij^2 (upper triangle, row major)", close(r * r * cii * cjj, cij * cij, tol::<F>(30) * cii * cjj));
-            check("pearson.r_ij has the sign of Cov_ij", F::lit(0.0).s_le(r * cij0));
+            // native f64 matrix products go through `matrixmultiply`, other scalars through ndarray's generic loop:
+            // bit-identical only when the centred data are exact (n a power of two)
+            if n.is_power_of_two() {
+                observe(r);
+            }
+            check_g(only, 1, "pearson.r_ij * std_i * std_j == Cov_ij (upper triangle, row major)", close(r * sd[i] * sd[j], cov[(i, j)] + mu2(mutk, 1), t_cov));
+            check_g(only, 3, "pearson.n (n-1) Cov_ij == n sum x_i x_j - sum x_i sum x_j", close(nn1 * cov[(i, j)], cmom(&x, i, j) + mu2(mutk, 3), t_mom));
+            // direct squared form (usually beyond the solver; still evaluated on every path witness)
+            let (cii, cjj, cij) = (cmom(&x, i, i), cmom(&x, j, j), cmom(&x, i, j));
+            check_g(if only < 0 { 99 } else { only }, 5, "pearson.r_ij^2 * C_ii * C_jj == C_ij^2 and r_ij C_ij >= 0", close(r * r * cii * cjj, cij * cij + mu2(mutk, 5), tol::<F>(30) * cii * cjj).and(F::lit(0.0).s_le(r * cij)));
             k += 1;
         }
     }
@@ -629,31 +725,30 @@ fn pearson<F: Scalar>(p: &Params) {
         let xp = Array2::from_shape_fn((n, pc), |(i, j)| x[(pi[i], j)]);
         let cp = DatasetBase::from(xp).pearson_correlation().get_coeffs().clone();
         for k in 0..coeffs.len() {
-            let m2 = if mutk == 2 { F::lit(1.0) } else { F::lit(0.0) };
-            check("pearson.unchanged by permuting the observations", close(coeffs[k], cp[k] + m2, tol::<F>(30)));
+            check_g(only, 4, "pearson.unchanged by permuting the observations", close(coeffs[k], cp[k] + mu2(mutk, 4), tol::<F>(30)));
         }
     }
 }
 
 pub fn register(v: &mut Vec<HarnessDef>) {
     harness!(v, "c05.regression", "C05", regression,
-        "regression score m (0 max,1 mae,2 mse,3 msle,4 median,5 mape,6 r2,7 explained variance) == textbook formula over symbolic integer vectors; single (cols=0) / multi target; array and dataset receivers; invariant under a transposition and a rotation",
-        ["linfa::metrics::SingleTargetRegression::{max_error,mean_absolute_error,mean_squared_error,mean_squared_log_error,median_absolute_error,mean_absolute_percentage_error,r2,explained_variance}", "linfa::metrics::MultiTargetRegression::* (per column)", "impls for ArrayBase<_,Ix1>, ArrayBase<_,Ix2>, DatasetBase"],
-        ["entries are integers in [-B,B] ([0,B] for the log error: ln is an uninterpreted function, only the formula around it is checked)", "mape: receiver entries non-zero", "r2 / explained variance: truth non-constant; tolerance 2^-24 relative absorbs the 1e-10 linfa adds to the denominator", "explained variance with region=0: errors sum to zero (outside the recorded defect)"]);
+        "regression score m (0 max,1 mae,2 mse,3 msle,4 median,5 mape,6 r2,7 explained variance) == textbook formula over symbolic integer vectors of length n; cols=0 single target / cols=c multi target; recv 0 array.metric(&array), 1 dataset.metric(&array), 2 array.metric(&dataset); ob: 1 formula, 2 auxiliary identity (r2/ev), 3 transposition, 4 rotation; form (r2/ev): 0 through SStot+1e-10, 1 directly against the moment sums; region (ev): 0 errors sum to 0, 1 errors sum to neither 0 nor 1 (recorded defect)",
+        ["linfa::metrics::SingleTargetRegression::{max_error,mean_absolute_error,mean_squared_error,mean_squared_log_error,median_absolute_error,mean_absolute_percentage_error,r2,explained_variance}", "linfa::metrics::MultiTargetRegression::* (per column)", "impls for ArrayBase<_,Ix1>, ArrayBase<_,Ix2>, DatasetBase (receiver and argument)"],
+        ["entries are integers in [-B,B] ([0,B] for the log error: ln is an uninterpreted function, so only the formula around it is checked)", "mape: receiver entries non-zero (the error is relative to the receiver)", "r2 / explained variance: truth non-constant; form 0 states (1-score)(SStot+1e-10) == numerator with SStot the two-pass textbook sum, checked against the moment form by a second obligation; linfa's 1e-10 changes the score by at most |1-score| n 1e-10 there; form 1 (n<=4) states it without the 1e-10 against the moment form with tolerance 2^-24 of the largest numerator, using the interval fact 0 <= SSres <= n(2B)^2 as a hint", "explained variance, region 0: errors sum to zero; errors summing to 1 are in neither region", "median: the oracle ranks the absolute errors with its own comparisons (branches of the same path)", "divisor != 0 of r2/ev is assumed up front (it is SStot + 1e-10 > 0) so that the engine does not fork on it"]);
     harness_sym!(v, "c05.confusion", "C05", confusion,
-        "confusion matrix and derived scores for every pair of label vectors of length n over k classes (lab 0 usize, 1 bool, 2 String; recv 0 array/&array, 1 array/array, 2 dataset/&dataset, 3 array/&dataset)",
-        ["linfa::metrics::ToConfusionMatrix::confusion_matrix (4 impls)", "linfa::dataset::Labels::{label_count,label_set,combined_labels}", "linfa::metrics::ConfusionMatrix::{accuracy,precision,recall,f_score,f1_score,mcc,split_one_vs_all,split_one_vs_one}", "<ConfusionMatrix as Debug>::fmt"],
-        ["labels are enumerated by the solver and resolved before linfa is called (cells are concrete f32 counts on each path)", "scores whose documented formula divides by zero are not constrained", "precision/recall: the rustdoc formula over the cells (first label, column / row sums)"]);
+        "confusion matrix and derived scores for every pair of label vectors of length n over k classes (lab 0 usize, 1 bool, 2 String; recv 0 array/&array, 1 array/array, 2 dataset/&dataset, 3 array/&dataset; part 0 all documented obligations, 1 number of one-vs-one matrices, 2 textbook precision/recall)",
+        ["linfa::metrics::ToConfusionMatrix::confusion_matrix (4 impls)", "linfa::dataset::Labels::{label_count,label_set,combined_labels}", "linfa::metrics::ConfusionMatrix::{accuracy,precision,recall,f_score,f1_score,mcc,split_one_vs_all,split_one_vs_one}", "<ConfusionMatrix as Debug>::fmt (the only public view of members and cells)"],
+        ["labels are enumerated by the solver and resolved before linfa is called (cells are concrete f32 counts on each path; linfa's HashMaps see ordinary labels, so the trace is deterministic)", "scores whose documented formula divides by zero are not constrained", "precision/recall: the rustdoc reading over the cells (2x2: M00/(M00+M10) resp. M00/(M00+M01); otherwise macro average over the one-vs-all splits); member order is not pinned"]);
     harness_sym!(v, "c05.cm_errors", "C05", cm_errors,
         "length mismatch and empty input are errors",
         ["linfa::metrics::ToConfusionMatrix::confusion_matrix", "linfa::metrics::SingleTargetRegression::{mean_absolute_error,mean_squared_error,r2}"],
         []);
     harness!(v, "c05.silhouette", "C05", silhouette,
-        "silhouette score of a two-cluster labelling (bit pattern pat) of n symbolic points in d dimensions == mean of (b-a)/max(a,b)",
+        "silhouette score of a two-cluster labelling (bit pattern pat) of n symbolic points in d dimensions; ob: 1 score*n == sum s_i, 2 a_i is the mean distance to the other members of the own cluster, 3 b_i is the mean distance to the other cluster, 4 s_i*max(a_i,b_i) == b_i-a_i, 6 invariance under a rotation of the samples (perm=1), 9 range",
         ["linfa::metrics::SilhouetteScore::silhouette_score", "linfa::metrics_clustering::DistanceCount::{add_point,mean_distance,same_label_mean_distance}"],
-        ["integer coordinates in [-B,B]", "two clusters, each with at least two distinct points", "three or more clusters are not run: linfa iterates a std HashMap whose order differs from run to run, so the sequence of comparisons is not a function of the input"]);
+        ["integer coordinates in [-B,B]", "two clusters, each with at least two distinct points", "d=1: sqrt((x_i-x_j)^2) == |x_i-x_j| is stated as a hint (exact also in IEEE on the grid) so that path conditions are linear; with d=2 z3 leaves branch flips undecided (not registered)", "three or more clusters are not run: linfa iterates a std HashMap whose order differs from run to run, so the sequence of comparisons is not a function of the input"]);
     harness!(v, "c05.pearson", "C05", pearson,
-        "Pearson coefficients of an n x p symbolic matrix: r^2 Var_i Var_j == Cov_ij^2, sign, upper-triangle order",
+        "Pearson coefficients of an n x p symbolic matrix through auxiliary sample covariance / standard deviations computed by ndarray; ob: 1 r_ij std_i std_j == Cov_ij (row-major upper triangle), 2 n(n-1) std_i^2 == moment sum, 3 n(n-1) Cov_ij == moment sum, 4 invariance under a rotation of the rows (perm=1; beyond z3), 5 direct squared form (beyond z3)",
         ["linfa::correlation::pearson_correlation", "linfa::correlation::PearsonCorrelation::{from_dataset,get_coeffs}", "DatasetBase::pearson_correlation"],
-        ["integer entries in [-B,B]", "every feature non-constant"]);
+        ["integer entries in [-B,B]", "every feature non-constant (std != 0 stated up front so that the engine does not fork on the divisor)", "obligations 1-3 together give r_ij = C_ij / sqrt(C_ii C_jj); the composition is arithmetic outside the solver"]);
 }
